@@ -64,3 +64,37 @@ func Model(shape string, n int) *ref.Node {
 	}
 	return &ref.Node{Ch: nodes}
 }
+
+// Represent returns the same tree in another presentation: the children of every node in reverse order.
+func Represent(m *ref.Node) *ref.Node {
+	c := m.Clone()
+	c.Walk(func(x, p *ref.Node) {
+		for i, j := 0, len(x.Ch)-1; i < j; i, j = i+1, j-1 {
+			x.Ch[i], x.Ch[j] = x.Ch[j], x.Ch[i]
+		}
+	})
+	return c
+}
+
+// Variant returns a tree on the same tips that differs from m by nearest-neighbour interchanges at
+// about one inner branch in `every` (chosen by position and seed), with some lengths changed.
+func Variant(m *ref.Node, seed, every int) *ref.Node {
+	c := m.Clone()
+	i := 0
+	c.Walk(func(x, p *ref.Node) {
+		i++
+		if len(x.Ch) < 2 || (i*7+seed)%every != 0 {
+			return
+		}
+		a := x.Ch[0]
+		if len(a.Ch) < 2 {
+			return
+		}
+		// swap the last child of a with the last child of x
+		a.Ch[len(a.Ch)-1], x.Ch[len(x.Ch)-1] = x.Ch[len(x.Ch)-1], a.Ch[len(a.Ch)-1]
+		if a.Len != nil {
+			a.Len = ref.F(*a.Len + 0.25)
+		}
+	})
+	return c
+}
